@@ -352,6 +352,8 @@ class GEval:
         recv, name, argexprs = e[1], e[2], e[3]
         rv = self.ev(it, recv, env)
         args = [self.ev(it, a, env) for a in argexprs]
+        if rv.kind == "VEC" and name == "len" and not args:
+            return N("len")
         if rv.kind == "N" and name == "div_ceil" and len(args) == 1 and args[0].kind == "N":
             return N(f"(div_ceil {rv.a} {args[0].a})")
         if rv.kind == "STRUCT":
@@ -577,45 +579,60 @@ def gen_grid(repo, out):
     v, _, _ = run(f, "ParIterator2D", [], STRUCT("ParIterator2D", {"it": it2()}))
     emit("par2d_len", "(p0 p1 index index_back : nat)", "nat", r(v), [f, ev.find("len", "Iterator2D")], "IndexedParallelIterator::len")
 
-    # ---- transpose_vec: the loop nest, piecewise
+    # ---- transpose_vec: out-of-place double loop, piecewise
     f_t = ev.find("transpose_vec")
     b = f_t.body
+    shape = ("transpose_vec: expected `if C { return vec; } let num_rows = E; let mut transposed = Vec::with_capacity(_); "
+             "for col in a..b { for row in c..d { transposed.push(vec[I].clone()); } } transposed`")
     try:
         st = b[1]
-        assert st[0][0] == "let" and st[0][3] == ("path", ["vec"])
-        assert st[1][0] == "let" and st[1][1][1] == "len" and st[1][3] == ("mcall", ("path", ["vec"]), "len", [])
-        assert st[2][0] == "let" and st[2][1][1] == "num_rows"
+        assert len(st) == 4 and b[2] == ("path", ["transposed"])
+        early = st[0]
+        assert early[0] == "expr" and early[1][0] == "if" and early[1][3] is None
+        eb = early[1][2]
+        assert eb == ("block", [("expr", ("return", ("path", ["vec"])))], None) or eb == ("block", [], ("return", ("path", ["vec"])))
+        assert st[1][0] == "let" and st[1][1][1] == "num_rows"
+        assert st[2][0] == "let" and st[2][1] == ("pbind", "transposed", True) and st[2][3][0] == "call" and st[2][3][1] == ("path", ["Vec", "with_capacity"])
         outer = st[3]
-        assert outer[0] == "for" and outer[1][1] == "row" and outer[2][0] == "range" and outer[2][3] is False
-        assert len(st) == 4 and b[2] == ("path", ["vec"])
+        assert outer[0] == "for" and outer[1][0] == "pbind" and outer[2][0] == "range" and outer[2][3] is False
         ob = outer[3]
         assert len(ob[1]) == 1 and ob[2] is None
         inner = ob[1][0]
-        assert inner[0] == "for" and inner[1][1] == "col" and inner[2][0] == "range" and inner[2][3] is False
+        assert inner[0] == "for" and inner[1][0] == "pbind" and inner[2][0] == "range" and inner[2][3] is False
         ib = inner[3]
-        assert len(ib[1]) == 3 and ib[2] is None
-        assert ib[1][0][0] == "let" and ib[1][1][0] == "let"
-        sw = ib[1][2]
-        assert sw[0] == "expr" and sw[1][0] == "mcall" and sw[1][1] == ("path", ["vec"]) and sw[1][2] == "swap" and len(sw[1][3]) == 2
+        assert len(ib[1]) == 1 and ib[2] is None
+        push = ib[1][0]
+        assert push[0] == "expr" and push[1][0] == "mcall" and push[1][1] == ("path", ["transposed"]) and push[1][2] == "push" and len(push[1][3]) == 1
+        item = push[1][3][0]
+        assert item[0] == "mcall" and item[2] == "clone" and item[3] == [] and item[1][0] == "index" and item[1][1] == ("path", ["vec"])
+        read_index = item[1][2]
+        ovar, ivar = outer[1][1], inner[1][1]
+        assert ovar != ivar
     except (AssertionError, IndexError, TypeError):
-        ev.fail(f_t, "transpose_vec: expected `let len; let num_rows; for row in a..b { for col in c..d { let i1; let i2; vec.swap(i1, i2); } } vec`")
+        ev.fail(f_t, shape)
     ev.cur_container = None
     ev.pre = []
-    env = {"len": N("len"), "num_cols": N("num_cols")}
-    env["num_rows"] = ev.ev(f_t, st[2][3], env)
-    emit("transpose_num_rows", "(len num_cols : nat)", "nat", env["num_rows"].a, [f_t], "usize::div_ceil: panics when num_cols = 0")
+    env = {"vec": V("VEC"), "num_cols": N("num_cols")}
+    c = ev.ev(f_t, early[1][1], env)
+    if c.kind != "B" or ev.pre:
+        ev.fail(f_t, shape)
+    emit("transpose_early_return", "(len num_cols : nat)", "bool", c.a, [f_t], "`if C { return vec; }`: the input is returned unchanged")
+    env["num_rows"] = ev.ev(f_t, st[1][3], env)
+    emit("transpose_num_rows", "(len num_cols : nat)", "nat", env["num_rows"].a, [f_t], "usize division (num_cols = 0 is excluded by the early return)")
     lo, hi = ev.ev(f_t, outer[2][1], env), ev.ev(f_t, outer[2][2], env)
-    emit("transpose_outer_range", "(len num_cols : nat)", "nat * nat", f"({lo.a}, {hi.a})", [f_t], "`for row in lo..hi`")
-    env2 = dict(env, row=N("row"))
+    emit("transpose_outer_range", "(len num_cols : nat)", "nat * nat", f"({lo.a}, {hi.a})", [f_t], f"`for {ovar} in lo..hi`")
+    env2 = dict(env)
+    env2[ovar] = N("outer")
     lo, hi = ev.ev(f_t, inner[2][1], env2), ev.ev(f_t, inner[2][2], env2)
-    emit("transpose_inner_range", "(len num_cols row : nat)", "nat * nat", f"({lo.a}, {hi.a})", [f_t], "`for col in lo..hi`")
-    env3 = dict(env2, col=N("col"))
+    emit("transpose_inner_range", "(len num_cols outer : nat)", "nat * nat", f"({lo.a}, {hi.a})", [f_t], f"`for {ivar} in lo..hi`")
+    env3 = dict(env2)
+    env3[ivar] = N("inner")
     ev.pre = []
-    ev.bind(f_t, ib[1][0][1], ev.ev(f_t, ib[1][0][3], env3), env3)
-    ev.bind(f_t, ib[1][1][1], ev.ev(f_t, ib[1][1][3], env3), env3)
-    i1, i2 = ev.ev(f_t, sw[1][3][0], env3), ev.ev(f_t, sw[1][3][1], env3)
-    emit("transpose_swap_indices", "(len num_cols row col : nat)", "nat * nat", f"({i1.a}, {i2.a})", [f_t, f_1d], "arguments of `vec.swap`")
-    emit("transpose_swap_pre", "(len num_cols row col : nat)", "bool", conj(ev.pre), [f_t, f_1d], "asserts reached before the swap")
+    idx = ev.ev(f_t, read_index, env3)
+    if idx.kind != "N":
+        ev.fail(f_t, shape)
+    emit("transpose_read_index", "(len num_cols outer inner : nat)", "nat", idx.a, [f_t, f_1d], "`transposed.push(vec[I].clone())`: I (indexing panics when I >= len)")
+    emit("transpose_read_pre", "(len num_cols outer inner : nat)", "bool", conj(ev.pre), [f_t, f_1d], "asserts reached while computing I")
 
     # ---- unit conversions and the six space conversions (endpoint formulas)
     f_w2f = ev.find("vacuum_wavelength_to_frequency")
